@@ -167,11 +167,18 @@ def qualify(path, crate):
 _FACTS = {}
 
 
-def load(config='rel', repo=None):
+def load(config='rel', repo=None, view='plain'):
+    """view 'plain': the extracted program (new helper functions inlined); view 'desugared': additionally, Option/Result
+    combinators with closure arguments are written out as matches (xl/inline.py)."""
     d, th = ensure_facts(config, repo)
-    k = (d,)
+    k = (d, view)
     if k not in _FACTS:
-        _FACTS[k] = Facts(d)
-        _FACTS[k].tree_hash = th
-        _FACTS[k].config = config
+        f = Facts(d)
+        f.tree_hash = th
+        f.config = config
+        f.view = view
+        if view == 'desugared':
+            from . import inline
+            f.n_desugared = inline.desugar_combinators(f)
+        _FACTS[k] = f
     return _FACTS[k]
